@@ -45,7 +45,7 @@ let rec parse_all toks = match toks with [] -> [] | _ -> let (x, r) = parse_sx t
 let prim_names = [
   "+", PAdd; "-", PSub; "*", PMul; "<", PLt; ">", PGt; "<=", PLe; ">=", PGe; "==", PEq; "!=", PNe;
   "not", PNot; "cons", PCons; "first", PFirst; "rest", PRest; "list", PList; "array", PArray;
-  "aget", PAget; "aset", PAset; "append", PAppend; "len", PLen; "map", PMap; "apply", PApply;
+  "aget", PAget; "aset", PAset; "append", PAppend; "len", PLen; "concat", PConcat; "map", PMap; "apply", PApply;
   "trace", PTrace; "failk", PFailK ]
 
 let names : (string, int) Hashtbl.t = Hashtbl.create 64
@@ -256,6 +256,7 @@ let replay_scope (evs : string list) : string =
   Hashtbl.replace tbl 0 !st.curF;
   let next = ref 1 in
   let outs = ref [] in
+  let premise_bad = ref false in
   let dump () =
     let num : (int, int) Hashtbl.t = Hashtbl.create 16 in
     let n i = (match Hashtbl.find_opt num i with Some k -> k | None -> let k = Hashtbl.length num + 1 in Hashtbl.replace num i k; k) in
@@ -269,7 +270,12 @@ let replay_scope (evs : string list) : string =
       | GSub (_, cl, par) ->
         let here = (match cl with Some c -> "[" ^ lst c ^ "]" | None -> "-") in   (* numbered before the parents *)
         let rest = chain par in here :: rest in
-    l ^ "|C:" ^ String.concat ";" (chain !st.curF) in
+    let body = l ^ "|C:" ^ String.concat ";" (chain !st.curF) in
+    (* the invariant cov of Proofs/ScopeImplProofs.v, in its decidable form, tested at every dump; the premise of
+       cov_call / cov_tail_call tested at every function entry.  A failure marks the dump, which then cannot equal
+       the real one, so the tie reports it. *)
+    let body = if covb !st then body else body ^ "!COV" in
+    if !premise_bad then (premise_bad := false; body ^ "!PREMISE") else body in
   let num_of s = int_of_string (String.sub s 1 (String.length s - 1)) in
   List.iter (fun e ->
     match e.[0] with
@@ -277,7 +283,9 @@ let replay_scope (evs : string list) : string =
       if String.length e >= 2 && e.[1] = '1' then begin
         let ts = if String.length e > 3 then String.split_on_char '.' (String.sub e 3 (String.length e - 3)) else [] in
         let ts = List.filter (fun x -> x <> "") ts in
-        st := add_func_scopeF id (List.map (fun t -> nat_of_int (int_of_string t)) ts) !st
+        let tm = List.map (fun t -> nat_of_int (int_of_string t)) ts in
+        if not (call_premise_b tm !st.curF) then premise_bad := true;
+        st := add_func_scopeF id tm !st
       end else st := add_scopeF id !st
     | 'o' -> st := pop_scopesF (nat_of_int (num_of e)) !st
     | 'c' -> Hashtbl.replace tbl (num_of e) (create_closureF !st)
